@@ -134,12 +134,141 @@ func genRestart(repo, out string) {
 	rOnce := method(run, "Adapter", "runOnce")
 	rRecovers := recovers(rOnce)
 
+	// runOnce runs the controller: after the deferred functions and the "starting" log line either
+	// `return adapter.ctrl.Run(ctx, adapter, logger)`, or `err = adapter.ctrl.Run(ctx, adapter, logger)` followed by
+	// nothing but clearings of the output tracker and `return err`. Where the output tracker is cleared is a fact of
+	// its own (trackerReset).
+	const (
+		ctrlRun      = "adapter.ctrl.Run(ctx, adapter, logger)"
+		trackerClear = "adapter.outputTracker = nil"
+	)
+
 	rRunsCtrl := false
-	if rOnce != nil {
-		if ret, ok := lastReturn(rOnce.Body); ok && ret == "adapter.ctrl.Run(ctx, adapter, logger)" {
+	trackerReset := "unknown"
+
+	if rOnce != nil && rOnce.Body != nil {
+		var rest []ast.Stmt
+
+		for _, st := range rOnce.Body.List {
+			if _, ok := st.(*ast.DeferStmt); ok && rest == nil {
+				continue
+			}
+
+			if src(st) == `logger.Debug("controller starting")` && rest == nil {
+				continue
+			}
+
+			rest = append(rest, st)
+		}
+
+		clearsAfterRun := 0
+
+		switch {
+		case len(rest) == 1 && src(rest[0]) == "return "+ctrlRun:
 			rRunsCtrl = true
+		case len(rest) >= 2 && src(rest[0]) == "err = "+ctrlRun && src(rest[len(rest)-1]) == "return err":
+			rRunsCtrl = true
+
+			for _, st := range rest[1 : len(rest)-1] {
+				if src(st) == trackerClear {
+					clearsAfterRun++
+				} else {
+					rRunsCtrl = false
+				}
+			}
+		}
+
+		// clearings of the tracker anywhere in runOnce, and those that are a top-level statement of a deferred function
+		clearsAll, clearsDeferred := 0, 0
+
+		ast.Inspect(rOnce.Body, func(x ast.Node) bool {
+			if as, ok := x.(*ast.AssignStmt); ok && src(as) == trackerClear {
+				clearsAll++
+			}
+
+			return true
+		})
+
+		for _, st := range rOnce.Body.List {
+			ds, ok := st.(*ast.DeferStmt)
+			if !ok {
+				continue
+			}
+
+			if fl, ok := ds.Call.Fun.(*ast.FuncLit); ok && len(ds.Call.Args) == 0 {
+				for _, inner := range fl.Body.List {
+					if src(inner) == trackerClear {
+						clearsDeferred++
+					}
+				}
+			}
+		}
+
+		switch {
+		case !rRunsCtrl:
+		case clearsAll == 0:
+			trackerReset = "never"
+		case clearsDeferred >= 1 && clearsDeferred+clearsAfterRun == clearsAll:
+			trackerReset = "deferred"
+		case clearsDeferred == 0 && clearsAfterRun == clearsAll:
+			trackerReset = "afterRun"
 		}
 	}
+
+	// output_tracker.go: StartTrackingOutputs panics when a tracker is set and sets one; CleanupOutputs clears it and resets
+	// the restart backoff before its final `return nil`; nothing else in the package assigns the field
+	ot := parse(filepath.Join(repo, "pkg/controller/runtime/internal/rruntime/output_tracker.go"))
+	startPanicsWhenSet, cleanupClearsTracker, cleanupResetsBackoff := false, false, false
+
+	if fd := method(ot, "Adapter", "StartTrackingOutputs"); fd != nil && fd.Body != nil && len(fd.Body.List) == 2 {
+		if s, ok := fd.Body.List[0].(*ast.IfStmt); ok && s.Init == nil && s.Else == nil && src(s.Cond) == "adapter.outputTracker != nil" &&
+			len(s.Body.List) == 1 && strings.HasPrefix(src(s.Body.List[0]), "panic(") &&
+			src(fd.Body.List[1]) == "adapter.outputTracker = trackingPoolInstance.Get()" {
+			startPanicsWhenSet = true
+		}
+	}
+
+	if fd := method(ot, "Adapter", "CleanupOutputs"); fd != nil && fd.Body != nil {
+		b := fd.Body.List
+		iClear := indexOf(b, is(trackerClear))
+		iReset := indexOf(b, is("adapter.ResetRestartBackoff()"))
+
+		if ret, ok := lastReturn(fd.Body); ok && ret == "nil" {
+			cleanupClearsTracker = iClear >= 0
+			cleanupResetsBackoff = iReset >= 0 && iReset > iClear && iReset == len(b)-2
+		}
+	}
+
+	trackerAssigns := 0
+
+	rrFiles, _ := filepath.Glob(filepath.Join(repo, "pkg/controller/runtime/internal/rruntime/*.go")) //nolint:errcheck
+	for _, pf := range rrFiles {
+		if strings.HasSuffix(pf, "_test.go") {
+			continue
+		}
+
+		ast.Inspect(parse(pf), func(x ast.Node) bool {
+			switch n := x.(type) {
+			case *ast.AssignStmt:
+				for _, lhs := range n.Lhs {
+					if src(lhs) == "adapter.outputTracker" {
+						trackerAssigns++
+					}
+				}
+			case *ast.UnaryExpr:
+				if n.Op == token.AND && src(n.X) == "adapter.outputTracker" {
+					trackerAssigns += 100
+				}
+			}
+
+			return true
+		})
+	}
+
+	trackerRunOnceClears := map[string]int{"deferred": 1, "afterRun": 1, "never": 0}
+
+	n, known := trackerRunOnceClears[trackerReset]
+	trackerPrivate := known && trackerAssigns == 2+n
 
 	// ---- rruntime.go
 	rDefaultCtor, rMaxElapsedZero, rInitialTrigger, rResetResets := false, false, false, false
@@ -243,6 +372,7 @@ func genRestart(repo, out string) {
 	// ---- task.runWithRestarts
 	tFd := method(tk, "Task[T, S]", "runWithRestarts")
 	taskDefaultCtor, taskMaxElapsedZero, taskLoopShape, taskNoReset := false, false, false, false
+	taskFinish := "unknown"
 
 	if tFd != nil {
 		taskDefaultCtor = indexOf(tFd.Body.List, is("backoff := backoff.NewExponentialBackOff()")) >= 0 && countAssign(tFd.Body, "backoff :=") == 1
@@ -251,17 +381,37 @@ func genRestart(repo, out string) {
 
 		tb := forBody(tFd)
 		tRun := indexOf(tb, is("err := task.runWithPanicHandler(ctx)"))
+		// the exit of the loop: `if <taskFinish> { …; return }` right after the run; the condition is a fact of its own
 		tNil := indexOf(tb, func(st ast.Stmt) bool {
 			s, ok := st.(*ast.IfStmt)
-			if !ok || src(s.Cond) != "err == nil" || len(s.Body.List) == 0 {
+			if !ok || s.Init != nil || s.Else != nil || len(s.Body.List) == 0 {
 				return false
 			}
 
 			return src(s.Body.List[len(s.Body.List)-1]) == "return"
 		})
+
+		if tNil >= 0 {
+			switch src(tb[tNil].(*ast.IfStmt).Cond) { //nolint:forcetypeassert
+			case "err == nil":
+				taskFinish = "errNil"
+			case "err == nil || errors.Is(err, context.Canceled)":
+				taskFinish = "errNilOrCanceled"
+			}
+		}
 		tNext := indexOf(tb, is("interval := backoff.NextBackOff()"))
 		tWait := indexOf(tb, waitSelect)
-		taskLoopShape = tRun == 0 && tNil == 1 && tNext > tNil && tWait > tNext && tWait == len(tb)-1
+		taskLoopShape = tRun == 0 && tNil == 1 && tNext > tNil && tWait > tNext && tWait == len(tb)-1 && taskFinish != "unknown"
+	}
+
+	// task.runWithPanicHandler hands RunTask's error through unchanged (no conversion of context.Canceled as in the adapters)
+	taskPassesError := false
+	if fd := method(tk, "Task[T, S]", "runWithPanicHandler"); fd != nil && fd.Body != nil && len(fd.Body.List) == 2 {
+		if ret, ok := lastReturn(fd.Body); ok && ret == "task.spec.RunTask(ctx, task.logger, task.in)" {
+			if _, ok := fd.Body.List[0].(*ast.DeferStmt); ok {
+				taskPassesError = true
+			}
+		}
 	}
 
 	taskRecovers := recovers(method(tk, "Task[T, S]", "runWithPanicHandler"))
@@ -467,6 +617,12 @@ func genRestart(repo, out string) {
 	b("rruntime.Run: `for { err := runOnce; if err == nil { return }; … interval := adapter.backoff.NextBackOff(); … select { <-ctx.Done(): return; <-time.After(interval): } … }`", "rLoopShape", rLoopShape)
 	b("rruntime.Run: the loop body ends with `adapter.triggerReconcile()` after the wait (\"schedule reconcile after restart\")", "rRetrigger", rRetrigger)
 	b("rruntime.runOnce: deferred `if p := recover(); p != nil { err = fmt.Errorf(…) }` and `return adapter.ctrl.Run(ctx, adapter, logger)`", "rRecovers", rRecovers && rRunsCtrl)
+	l.line("/-- rruntime.runOnce: where `adapter.outputTracker = nil` stands: `.deferred` = top-level statement of a deferred function (runs on every exit of ctrl.Run, a panic included), `.afterRun` = plain statement between `err = adapter.ctrl.Run(…)` and `return err` (skipped when ctrl.Run panics), `.never` = nowhere -/")
+	l.line("def trackerReset : TrackerReset := .%s", trackerReset)
+	b("rruntime.StartTrackingOutputs: `if adapter.outputTracker != nil { panic(…) }; adapter.outputTracker = trackingPoolInstance.Get()`", "startPanicsWhenSet", startPanicsWhenSet)
+	b("rruntime.CleanupOutputs clears the tracker (`adapter.outputTracker = nil`) on its way to the final `return nil`", "cleanupClearsTracker", cleanupClearsTracker)
+	b("rruntime.CleanupOutputs ends with `adapter.ResetRestartBackoff(); return nil`", "cleanupResetsBackoff", cleanupResetsBackoff)
+	b("package rruntime (non-test files): adapter.outputTracker is assigned only by StartTrackingOutputs, CleanupOutputs and the recognised clearing of runOnce, and its address is never taken", "trackerPrivate", trackerPrivate)
 	b("rruntime.NewAdapter: `backoff: backoff.NewExponentialBackOff()` (no options)", "rDefaultCtor", rDefaultCtor)
 	b("rruntime.NewAdapter: `adapter.backoff.MaxElapsedTime = 0` is the only field of the backoff that is set", "rMaxElapsedZero", rMaxElapsedZero)
 	b("rruntime.NewAdapter calls `adapter.triggerReconcile()` (initial reconcile)", "rInitialTrigger", rInitialTrigger)
@@ -483,7 +639,10 @@ func genRestart(repo, out string) {
 	b("qruntime.runReconcile: the worker loop body ends with `func() { defer item.Release(); … }()`", "qWorkerLoops", qWorkerLoops)
 	b("task.runWithRestarts: `backoff := backoff.NewExponentialBackOff()` (no options)", "taskDefaultCtor", taskDefaultCtor)
 	b("task.runWithRestarts: `backoff.MaxElapsedTime = 0` only", "taskMaxElapsedZero", taskMaxElapsedZero)
-	b("task.runWithRestarts: `for … { err := runWithPanicHandler(ctx); if err == nil { …; return }; interval := backoff.NextBackOff(); …; select { ctx.Done: return; time.After(interval): } }`", "taskLoopShape", taskLoopShape)
+	b("task.runWithRestarts: `for … { err := runWithPanicHandler(ctx); if <taskFinish> { …; return }; interval := backoff.NextBackOff(); …; select { ctx.Done: return; time.After(interval): } }`", "taskLoopShape", taskLoopShape)
+	l.line("/-- task.runWithRestarts: the condition of that exit -/")
+	l.line("def taskFinish : TaskFinish := .%s", taskFinish)
+	b("task.runWithPanicHandler: one deferred recover, then `return task.spec.RunTask(ctx, task.logger, task.in)`: the error value reaches the loop unchanged", "taskPassesError", taskPassesError)
 	b("task.runWithRestarts never calls backoff.Reset()", "taskNoReset", taskNoReset)
 	b("task.runWithPanicHandler recovers a panic of RunTask into an error", "taskRecovers", taskRecovers)
 	b("runtime.processEvents: the first statement of the event loop is `if e.Type == state.Errored { <report e.Error on runtime.watchErrors>; return false }`, the report being one of the shapes of `watchErrSend`", "watchErrAborts", watchErrAborts)
